@@ -216,8 +216,9 @@ def ref_time_corr(series, steps, dt):
 def ref_spatial(frames, H, ppp, w, conds, kind):
     """Frame mean of the conditional g(r) reference.  Returns r, gr_lo, gr_hi, gA, amb(bool per bin)."""
     acc = None
-    for pos, c in zip(frames, conds):
-        o = ref_cond_gr(np.asarray(pos, float), H, ppp, w, np.asarray(c), kind)
+    Hf = list(H) if np.ndim(H) == 3 else [H] * len(frames)  # one cell, or one per frame (same edge lengths, tilts may change)
+    for pos, c, Hc in zip(frames, conds, Hf):
+        o = ref_cond_gr(np.asarray(pos, float), Hc, ppp, w, np.asarray(c), kind)
         if acc is None:
             acc = {k: (v.copy() if k != "r" else v) for k, v in o.items() if k in ("r", "gr_lo", "gr_hi", "gA", "amb")}
         else:
